@@ -12,6 +12,7 @@ CONSTANTS Fam,        \* "fold" | "prefix" | "regex" | "groups"
           MaxLen,     \* option sequences / string length
           Alphabet,   \* characters
           Depth,      \* regex AST depth / group nesting depth
+          MaxSyms,    \* groups: largest forest (number of symbols, the root included)
           Export,
           AnchorsAsCoded  \* TRUE: judge the regex semantics of "^"+p+"$" (refuted: D2)
 
@@ -40,7 +41,7 @@ Comps == {"x", "y"}
 RECURSIVE Syms(_)
 Syms(d) == IF d = 0 THEN {<<>>} ELSE LET S == Syms(d - 1) IN S \cup {Append(s, c) : s \in {t \in S : Len(t) = d - 1}, c \in Comps}
 ParentClosed(G) == \A g \in G : g = <<>> \/ Front(g) \in G
-Forests == {G \in SUBSET Syms(Depth) : <<>> \in G /\ ParentClosed(G)}
+Forests == {G \in SUBSET Syms(Depth) : <<>> \in G /\ Cardinality(G) <= MaxSyms /\ ParentClosed(G)}
 KidsOf(G, g, flip) ==
   LET ks == {h \in G : h # <<>> /\ Front(h) = g} IN
   IF ks = {} THEN <<>>
@@ -59,10 +60,13 @@ Instances ==
     [] Fam = "regex" ->
          {[fam |-> "regex", re |-> re] : re \in Regexes(Depth)}
     [] Fam = "groups" ->
-         UNION {{[fam |-> "groups", G |-> G, own |-> o, flip |-> f] : o \in Owns(G), f \in BOOLEAN} : G \in Forests}
+         \* two steps (forest, then own-filter assignment and sibling order), so that TLC never has to
+         \* build the set of all instances and its workers share the forests
+         {[fam |-> "forest", G |-> G] : G \in Forests}
     [] OTHER -> {}
 
-Next == x.fam = "start" /\ x' \in Instances
+Next == \/ x.fam = "start" /\ x' \in Instances
+        \/ x.fam = "forest" /\ x' \in {[fam |-> "groups", G |-> x.G, own |-> o, flip |-> f] : o \in Owns(x.G), f \in BOOLEAN}
 Spec == Init /\ [][Next]_x
 
 FoldOK == x.fam = "fold" =>
